@@ -11,8 +11,8 @@ from graph import path_brief
 EXPLANATION = ('Existence of a linearization for every schedule is NOT decided. Decided: (R04.1) the cache-directory put publishes '
                'only through hard_link (one atomic exclusive step), set only through rename; (R04.2) on link failure with kind '
                'AlreadyExists the destination is touched and the source unlinked before an Ok exit, any other kind reaches only '
-               'Err exits; (R04.3) a lookup performs at most one open of (directory + key) and the handle in its Ok(Some) exit is '
-               'the payload of that very open; (R04.4) in the stacked miss path, put:Ok is followed on every path to an Ok exit '
+               'Err exits; (R04.3) the handle in a lookup\'s Ok(Some) exit is the payload of an open of (directory + key) made by that '
+               'lookup (the number of attempts is C20\'s concern); (R04.4) in the stacked miss path, put:Ok is followed on every path to an Ok exit '
                'by a write-side lookup of the same key, whose hit can be what is returned.')
 FLOORS = {'R04.1': 2, 'R04.2': 3, 'R04.3': 2, 'R04.4': 2}
 
@@ -79,9 +79,10 @@ def r04_3(ctx):
         ress = {q.E[e][2]['res'] for e in opens}
         hits = q.terminals(lambda ev: ev['k'] == 'ret' and ev.get('variant') == 'Ok' and ev.get('variant2') == 'Some')
         bad = [t for t in hits if strip_view(values.mut_root(q.g.term[t]['payload2'][0])) not in ress]
-        ok = n == 1 and bool(hits) and not bad
-        out.append(inst('R04.3', name, ok, 'one open of (directory + key); the returned handle is that open\'s payload (%d hit exits)' % len(hits) if ok else
-                        'lookup is not a single open whose handle is returned (opens on a path: %s, foreign handles: %d)' % (n, len(bad))))
+        # any successful open of (directory + key) is a valid linearization point; how many attempts is C20's concern
+        ok = n >= 1 and bool(hits) and not bad
+        out.append(inst('R04.3', name, ok, 'the returned handle is the payload of an open of (directory + key) (%d hit exits, <= %s attempts)' % (len(hits), n) if ok else
+                        'lookup does not return the handle of an open of (directory + key) (open attempts on that path: %s, foreign handles: %d)' % (n, len(bad))))
     return out
 
 
